@@ -233,7 +233,7 @@ fn main() {
     let tier = args.tier;
     let alphabet = years(Tier::Thorough); // the complete year alphabet in both tiers
     let ys: Vec<i64> = if tier == Tier::Thorough { (MIN_YEAR..=MAX_YEAR).collect() } else { alphabet.clone() };
-    let times = b_times(true);
+    let times = b_times_fracs(true);
     let j_date: Vec<Joined> = PADS.iter().map(|p| joined(DATE_SPECS, *p)).collect();
     let j_time: Vec<Joined> = PADS.iter().map(|p| joined(TIME_SPECS, *p)).collect();
     let all_dt: Vec<&'static str> = DATE_SPECS.iter().chain(TIME_SPECS.iter()).chain(DT_SPECS.iter()).cloned().collect();
